@@ -514,10 +514,17 @@ ssize_t write(int fd, const void *buf, size_t n)
     if (d.act == ACT_FAIL) { errno = d.err; post('m', &e, &d, -1, d.err); return -1; }
     if (d.act == ACT_SHORT && (size_t) d.n < n) n = d.n;
     r = r_write(fd, buf, n);
-    { int se = errno; post('m', &e, &d, r, se); errno = se; }
+    {
+      int se = errno;
+      /* keep the file's stamps on the virtual clock even if the process dies before close() */
+      if (r > 0 && k == 1 && fd < 1024 && wropen[fd]) stamp(fd);
+      post('m', &e, &d, r, se); errno = se;
+    }
     return r;
   }
-  return r_write(fd, buf, n);
+  r = r_write(fd, buf, n);
+  if (r > 0 && sh && fd >= 0 && fd < 1024 && wropen[fd]) { int se = errno; stamp(fd); errno = se; }
+  return r;
 }
 
 ssize_t read(int fd, void *buf, size_t n)
